@@ -313,7 +313,7 @@ func parserTrace(args []string) {
 		}
 
 		if o.Type == "update" && r.Float64() < 0.08 {
-			o.Nuv = "reuse_signing"
+			o.Nuv = []string{"reuse_signing", "reuse_signing_other_alg"}[r.Intn(2)]
 		}
 
 		cfg := pCfg{OpSize: three(), DeltaSize: three(), HashLen: three(),
